@@ -4,22 +4,44 @@ go 1.23.1
 
 require (
 	github.com/dapr/kit v0.0.0
+	github.com/alphadose/haxmap v1.3.1
+	github.com/cenkalti/backoff/v4 v4.2.1
+	github.com/davecgh/go-spew v1.1.1
+	github.com/decred/dcrd/dcrec/secp256k1/v4 v4.2.0
+	github.com/fsnotify/fsnotify v1.7.0
+	github.com/goccy/go-json v0.10.2
+	github.com/gogo/protobuf v1.3.2
+	github.com/lestrrat-go/blackmagic v1.0.2
+	github.com/lestrrat-go/httpcc v1.0.1
+	github.com/lestrrat-go/httprc v1.0.5
+	github.com/lestrrat-go/iter v1.0.2
 	github.com/lestrrat-go/jwx/v2 v2.0.21
+	github.com/lestrrat-go/option v1.0.1
+	github.com/mitchellh/mapstructure v1.5.1-0.20220423185008-bf980b35cac4
+	github.com/pmezard/go-difflib v1.0.0
+	github.com/segmentio/asm v1.2.0
+	github.com/sirupsen/logrus v1.9.3
+	github.com/spf13/cast v1.5.1
+	github.com/spiffe/go-spiffe/v2 v2.1.7
+	github.com/stretchr/testify v1.9.0
+	github.com/tidwall/transform v0.0.0-20201103190739-32f242e2dbde
+	github.com/zeebo/errs v1.3.0
 	golang.org/x/crypto v0.24.0
+	golang.org/x/exp v0.0.0-20231006140011-7918f672742d
+	golang.org/x/mod v0.17.0
+	golang.org/x/net v0.26.0
+	golang.org/x/sync v0.7.0
+	golang.org/x/sys v0.21.0
+	golang.org/x/text v0.16.0
+	golang.org/x/tools v0.21.1-0.20240508182429-e35e4ccd0d2d
+	google.golang.org/genproto/googleapis/rpc v0.0.0-20240318140521-94a12d6c2237
+	google.golang.org/grpc v1.64.0
+	google.golang.org/grpc/examples v0.0.0-20230224211313-3775f633ce20
+	google.golang.org/protobuf v1.33.0
+	gopkg.in/inf.v0 v0.9.1
+	gopkg.in/yaml.v3 v3.0.1
+	k8s.io/apimachinery v0.26.9
 	k8s.io/utils v0.0.0-20230726121419-3b25d923346b
-)
-
-require (
-	github.com/alphadose/haxmap v1.3.1 // indirect
-	github.com/lestrrat-go/blackmagic v1.0.2 // indirect
-	github.com/lestrrat-go/httpcc v1.0.1 // indirect
-	github.com/lestrrat-go/httprc v1.0.5 // indirect
-	github.com/lestrrat-go/iter v1.0.2 // indirect
-	github.com/lestrrat-go/option v1.0.1 // indirect
-	github.com/sirupsen/logrus v1.9.3 // indirect
-	github.com/tidwall/transform v0.0.0-20201103190739-32f242e2dbde // indirect
-	golang.org/x/exp v0.0.0-20231006140011-7918f672742d // indirect
-	golang.org/x/sys v0.21.0 // indirect
 )
 
 replace github.com/dapr/kit => /repo
